@@ -634,13 +634,17 @@ func (p *c07Prop) Gen(r *Rng, tier string, n int) []string {
 	}
 	close(jobs)
 	wg.Wait()
-	return lines
+	// READ COMMITTED emulation (harness/ip*.go): all statement boundaries of conditional-put victims x rivals
+	return append(lines, ipGen(r.Fork(), "C07", 8+n/60)...)
 }
 
 // corpus / replay lines run sequentially through the M-META engine; their oracle is the register reference below
 func (p *c07Prop) Run(in string, scratch string) Result {
 	if v, ok := c07Cache.Load(in); ok {
 		return v.(Result)
+	}
+	if strings.HasPrefix(in, "IP ") {
+		return ipRunProp(in, scratch, "C07")
 	}
 	stack := "fs"
 	if crc32.ChecksumIEEE([]byte(in))%2 == 0 {
@@ -696,7 +700,17 @@ func c07SeqOracle(line, out string) string {
 				return "-"
 			}
 			cref = f[4]
-		case "mb", "ver", "cmu", "up", "get", "head":
+		case "get":
+			k := f[1] + "/" + f[2]
+			if s := keys[k]; s != nil && f[3] == "-" {
+				if e, has := etagOf(i); has && (!s.exists || s.etag != e) {
+					return fmt.Sprintf("FAIL:op %d (get) returns an object whose ETag is not the one the last acknowledged write installed", i)
+				} else if !has && s.exists {
+					return fmt.Sprintf("FAIL:op %d (get) fails although an acknowledged write installed an object", i)
+				}
+			}
+			continue
+		case "mb", "ver", "cmu", "up", "head":
 			continue
 		default:
 			return "-"
